@@ -19,6 +19,16 @@ CHECKS = {
         note=TB + "Modelled, not verified: IndexMap, str::replace (A-std); strings as lists of scalar values.",
         technique="Coq proof (induction over histories, refinement to ordered key list) + extracted-model differential check",
         ref="DESIGN.md section 3 (C07)"),
+    "C14": dict(
+        text="Theorems about an executable Gallina model of the six path localizers: the transcribed per-language push strings equal the "
+             "specification table written from the property text for all 5x8 pairs (finite proof), localize = directory part + marker + final "
+             "component on every path of plain components (any depth, any characters, trailing slash or not), single components get the marker "
+             "appended, degenerate paths are errors; model tied to /repo by exhaustive correspondence over localizers x languages x a structured path "
+             "family plus arbitrary strings (no panic), and an independent oracle table.",
+        note=TB + "Modelled, not verified: std::path::Path::parent/file_name (on plain-component paths and the strings \"\", \"/\", \"..\", \".\"); "
+                  "other strings are outside the model and only checked for 'returns, no panic'. Filesystem consistency of the mapping is covered under C12/C13.",
+        technique="Coq proof (finite table by computation + list lemmas on split/join) + exhaustive extracted-model differential check",
+        ref="DESIGN.md section 5 (C14)"),
 }
 
 
